@@ -285,4 +285,4 @@ def check(case: dict) -> dict:
     return {'nontrivial': nontrivial, 'classes': classes, 'sample': {'text': text, 'session': sess, 'wire': msgs[0].hex()}}
 
 
-ENGINES = [Engine('routes', cases, check, quick=700, thorough=15000, batch=350)]
+ENGINES = [Engine('routes', cases, check, quick=1500, thorough=20000, batch=500)]
